@@ -221,3 +221,19 @@ Example id_z_follows_id_x_when_y_is_disabled :
   slot_of 12 (sgpr_inputs m g w PACKET_ADDR KERNARG_ADDR) = 3%nat /\
   firstn 5 (sgpr_file m g w) = [19088640; 2; 7; 9; UNWRITTEN].
 Proof. vm_compute. auto. Qed.
+
+(** ** Field widths of the packed V5 work-item IDs
+
+    v0 = x | y<<10 | z<<20 with 10 bits per field: EVERY id below 1024 — the
+    largest a work-group of at most 1024 items can have — round-trips in each
+    of the three positions, whatever the other two ids are. *)
+Theorem v5_packing_round_trips : forall x y z,
+  0 <= x < 1024 -> 0 <= y < 1024 -> 0 <= z < 1024 -> unpack_v5 (pack_v5 x y z) = (x, y, z).
+Proof. exact unpack_pack_v5. Qed.
+Print Assumptions v5_packing_round_trips.
+
+Example v5_extreme_ids :
+  unpack_v5 (pack_v5 1023 0 0) = (1023, 0, 0) /\ unpack_v5 (pack_v5 0 1023 0) = (0, 1023, 0) /\
+  unpack_v5 (pack_v5 0 0 1023) = (0, 0, 1023) /\ unpack_v5 (pack_v5 1 0 299) = (1, 0, 299) /\
+  pack_v5 0 0 256 = 268435456 /\ pack_v5 1023 1023 1023 = 1073741823.
+Proof. vm_compute. repeat split; reflexivity. Qed.
